@@ -202,6 +202,8 @@ func VH_C09_GroupReaderClose(scenario int) {
 		runError: make(chan error),
 		commits:  make(chan commitRequest, 4),
 	}
+	vhWatch(r)
+	vhGuardCheck(true)
 	go r.run(cg)
 	vhSettle()
 	vhAssert(co.joins == 1, "reader-joined-the-group")
